@@ -733,26 +733,21 @@ theorem subList_ext0 (h : Heap) (a : Nat) (s e : Int) : Ext0 h (subList h a s e)
   repeat' split
   all_goals first | exact Ext0.refl h | exact Ext0.append h _
 
-theorem concat_ok (h : Heap) (a : Nat) (r : Ref) (he : h.ego r.addr = 0) (hl : h.isList r.addr = true) :
+/-- the argument may be a derived list of any embedding level (`another.base()`) -/
+theorem concat_ok (h : Heap) (a : Nat) (r : Ref) (hl : h.isList r.addr = true) :
     concat h a r = (h ++ [.list (h.items a ++ h.items r.addr) 0], .ok ⟨h.length, 0⟩) := by
   unfold concat
-  simp [he, hl]
+  simp [hl]
 
-theorem concat_bad (h : Heap) (a : Nat) (r : Ref) (hb : ¬ (h.ego r.addr = 0 ∧ h.isList r.addr = true)) :
+theorem concat_bad (h : Heap) (a : Nat) (r : Ref) (hb : ¬ (h.isList r.addr = true)) :
     concat h a r = (h, .panic .runtime) := by
   unfold concat
   rw [if_pos]
-  simp only [bne_iff_ne, ne_eq, Bool.or_eq_true, Bool.not_eq_true']
-  by_cases he : h.ego r.addr = 0
-  · right
-    cases hl : h.isList r.addr
-    · rfl
-    · exact absurd ⟨he, hl⟩ hb
-  · left; exact he
+  simpa using hb
 
 theorem concat_ext0 (h : Heap) (a : Nat) (r : Ref) : Ext0 h (concat h a r).1 := by
-  by_cases hb : h.ego r.addr = 0 ∧ h.isList r.addr = true
-  · rw [concat_ok h a r hb.1 hb.2]; exact Ext0.append h _
+  by_cases hb : h.isList r.addr = true
+  · rw [concat_ok h a r hb]; exact Ext0.append h _
   · rw [concat_bad h a r hb]; exact Ext0.refl h
 
 theorem new_ext0 (h : Heap) (gs : List GoVal) : Ext0 h (new h gs).1 := by
